@@ -16,15 +16,15 @@ import (
 )
 
 type SolverStats struct {
-	Queries  int
-	Sat      int
-	Unsat    int
-	Unknown  int
-	Errors   int
-	Time     time.Duration
-	MaxQuery time.Duration
-	SendTime time.Duration
-	Bytes    int
+	Queries       int
+	Sat           int
+	Unsat         int
+	Unknown       int
+	Errors        int
+	Time          time.Duration
+	MaxQuery      time.Duration
+	SendTime      time.Duration
+	Bytes         int
 	GetValueCalls int
 }
 
